@@ -3,9 +3,14 @@
 use serde_json::json;
 
 use super::c13::{coordination_only, spec};
-use crate::srv::{Ev, MsgPolicy, Walk, comp_id, make_policies, run_walk};
+use crate::srv::{Ev, MsgPolicy, Stray, Walk, comp_id, make_policies, run_walk};
 use crate::srvx::{SrvSpace, explore};
 use crate::util::{Budget, Report, Tier, par_map};
+
+/// Commands sent right before the cancel where they are invalid for the party's state.
+fn pre_menu(n: usize) -> Vec<Stray> {
+    vec![Stray::Run, Stray::ScheduleSame, Stray::ValidateDup { wrong_hash: false }, Stray::Msg { from: n as u64, empty: false }]
+}
 
 pub fn main(tier: Tier, seed: u64) -> i32 {
     let mut rep = Report::new("C15", tier, seed, "model_checking");
@@ -50,7 +55,23 @@ pub fn main(tier: Tier, seed: u64) -> i32 {
                 if dense {
                     // the destination answers at once, or only after the client has suspended once
                     for oy in 0..2u8 {
-                        jobs.push((bases.len(), party, at, oy));
+                        jobs.push((bases.len(), party, at, oy, 0u8));
+                    }
+                    // a command that is invalid for the party's state (and must be answered with an
+                    // error, without effect) right before the cancel
+                    let prefix = &base.history[..at.min(len)];
+                    let own_sched = prefix.iter().any(|e| matches!(e, Ev::Schedule { party: p, .. } if *p as usize == party));
+                    for (pi, pre) in pre_menu(*n).iter().enumerate() {
+                        let invalid = match pre {
+                            Stray::Run => super::c14::run_is_invalid(prefix, party, *leader),
+                            Stray::ValidateDup { .. } => super::c14::validate_is_invalid(prefix, party, *leader),
+                            // after the run has ended a schedule starts a new state machine: not a duplicate
+                            Stray::ScheduleSame => own_sched && at <= first_msg,
+                            _ => true,
+                        };
+                        if invalid && (at % 2 == 0 || tier.is_thorough()) {
+                            jobs.push((bases.len(), party, at, 1, pi as u8 + 1));
+                        }
                     }
                 }
             }
@@ -72,24 +93,29 @@ pub fn main(tier: Tier, seed: u64) -> i32 {
             for (h, _) in ex.complete.iter() {
                 for party in 0..*n {
                     for oy in 0..2u8 {
-                        jobs.push((bases.len(), party, h.len(), oy));
+                        jobs.push((bases.len(), party, h.len(), oy, 0u8));
                     }
                 }
                 bases.push((ci, pols.clone(), h.clone()));
             }
         }
     }
-    let results = par_map(&jobs, |_, _, (bi, party, at, oy)| {
+    let results = par_map(&jobs, |_, _, (bi, party, at, oy, pre)| {
         let (ci, pols, base) = &bases[*bi];
         let (n, _, _, _) = &cfgs[*ci];
-        let walk = Walk { injections: vec![(*at, Ev::Cancel { pol: 0, party: *party as u8 })], prefer: base.clone(), max_steps: 10_000, output_yields: *oy, ..Default::default() };
+        let mut injections = vec![];
+        if *pre > 0 {
+            injections.push((*at, Ev::Stray { pol: 0, party: *party as u8, cmd: pre_menu(*n)[*pre as usize - 1].clone() }));
+        }
+        injections.push((*at, Ev::Cancel { pol: 0, party: *party as u8 }));
+        let walk = Walk { injections, prefer: base.clone(), max_steps: 10_000, output_yields: *oy, ..Default::default() };
         run_walk(*n, 1, pols.clone(), walk, MsgPolicy::Explicit, crate::exec::mix(seed, 1500 + *ci as u64))
     });
     let mut states = 0u64;
     let mut transitions = 0u64;
     let mut cancelled_ok = 0u64;
     let mut kinds: std::collections::BTreeMap<String, u64> = Default::default();
-    for ((bi, party, at, oy), r) in jobs.iter().zip(results.iter()) {
+    for ((bi, party, at, oy, pre), r) in jobs.iter().zip(results.iter()) {
         let ci = &bases[*bi].0;
         let (n, leader, consts, outs) = &cfgs[*ci];
         let r = match r {
@@ -103,7 +129,7 @@ pub fn main(tier: Tier, seed: u64) -> i32 {
         transitions += r.history.len() as u64;
         rep.evaluations += 1;
         let snap = &r.snapshot;
-        let desc = format!("n={n} leader={leader} consts_from={consts:?} outputs={outs:?}: cancel party {party} after event #{at}, output suspends {oy}x");
+        let desc = format!("n={n} leader={leader} consts_from={consts:?} outputs={outs:?}: cancel party {party} after event #{at}, output suspends {oy}x{}", if *pre > 0 { format!(", preceded by the invalid command {:?}", pre_menu(*n)[*pre as usize - 1]) } else { String::new() });
         let replay = json!({"kind":"srv15","n":n,"leader":leader,"consts_from":consts,"outputs":outs,"party":party,"at":at,"output_yields":oy,"history":r.history});
         let Some(c) = snap.calls.iter().find(|c| c.what == "cancel" && c.party as usize == *party) else {
             rep.violation("cancel_never_returned", desc.clone(), replay);
@@ -173,7 +199,7 @@ pub fn main(tier: Tier, seed: u64) -> i32 {
     rep.set("coordination_states_with_cancel", json!(coord_states));
     rep.set("coordination_exploration_capped", json!(coord_capped));
     rep.exhaustive = Some(!coord_capped);
-    rep.rule = "per configuration (n, leader, constants, destinations): the default-order history with explicit MPC-message events is the base; cancel is injected for each party after every k-th event among coordination events, compile completions and (quick: every 4th, thorough: every) MPC message; the run is then continued until quiescence; in addition (n=2; n=3 in the thorough tier) cancel is injected for each party in every reachable coordination state, i.e. after every history of schedule / validate / run / constants / compile events up to commutation of independent events, as enumerated by the C13 explorer; each injection is run with a client whose output call completes at once and with one that suspends once before completing (a notification counts as sent when the call has completed). states = injected histories executed on the real actors; non-trivial = cancel returned Ok".into();
+    rep.rule = "per configuration (n, leader, constants, destinations): the default-order history with explicit MPC-message events is the base; cancel is injected for each party after every k-th event among coordination events, compile completions and (quick: every 4th, thorough: every) MPC message; the run is then continued until quiescence; at the base-history positions the cancel is also preceded by one command that is invalid for the party's state (run / duplicate schedule / further validate / message from an unknown sender); in addition (n=2; n=3 in the thorough tier) cancel is injected for each party in every reachable coordination state, i.e. after every history of schedule / validate / run / constants / compile events up to commutation of independent events, as enumerated by the C13 explorer; each injection is run with a client whose output call completes at once and with one that suspends once before completing (a notification counts as sent when the call has completed). states = injected histories executed on the real actors; non-trivial = cancel returned Ok".into();
     rep.assumptions = vec![
         "current-thread runtime; the two orders 'spawned MPC task polled before/after notify_one' are both reached through the compile-gate choice point".into(),
         "a multi-threaded runtime is not explored".into(),
